@@ -57,7 +57,8 @@ def cases(draw):
     if style == "two-copies":
         damage = []
     down = draw(st.lists(st.integers(-2, 12), max_size=draw(st.sampled_from([0, 10, 80]))))
-    return {"k": k, "n": n, "seg": seg, "size": size, "servers": servers, "place": place, "damage": damage, "faults": faults, "down": down}
+    return {"k": k, "n": n, "seg": seg, "size": size, "servers": servers, "place": place, "damage": damage, "faults": faults, "down": down,
+            "guess": draw(st.sampled_from([None, None, None, 16, 200]))}
 
 
 def exhaustive(spec):
